@@ -468,12 +468,41 @@ func (u *Unmarshaler) parseOptionsWithContext(field reflect.StructField, m Value
 		return key, nil, nil
 	}
 
-	optsWithContext, err := options.toOptionsWithContext(key, m, fullName)
+	// optional=Dep 的"要么都设定要么都不设定"要按规范化后的键去查文档，
+	// 否则配置加载（键已规范化）时永远查不到，规则形同虚设
+	optsWithContext, err := options.toOptionsWithContext(key, u.canonicalValuer(m), fullName)
 	if err != nil {
 		return "", nil, err
 	}
 
 	return key, optsWithContext, nil
+}
+
+// canonicalKeyValuer 按规范化后的键查值。
+type canonicalKeyValuer struct {
+	Valuer
+	canonicalKey func(string) string
+}
+
+func (v canonicalKeyValuer) Value(key string) (any, bool) {
+	return v.Valuer.Value(v.canonicalKey(key))
+}
+
+func (u *Unmarshaler) canonicalValuer(m Valuer) Valuer {
+	if u.opts.canonicalKey == nil {
+		return m
+	}
+
+	return canonicalKeyValuer{Valuer: m, canonicalKey: u.opts.canonicalKey}
+}
+
+// canonical 返回键的规范化写法（未配置规范化函数时即键本身）。
+func (u *Unmarshaler) canonical(key string) string {
+	if u.opts.canonicalKey == nil {
+		return key
+	}
+
+	return u.opts.canonicalKey(key)
 }
 
 func (u *Unmarshaler) processAnonymousField(field reflect.StructField, value reflect.Value,
@@ -483,7 +512,7 @@ func (u *Unmarshaler) processAnonymousField(field reflect.StructField, value ref
 		return err
 	}
 
-	if _, hasValue := getValue(m, key); hasValue {
+	if _, hasValue := getValue(m, u.canonical(key)); hasValue {
 		return fmt.Errorf("字段 %s 不能包裹在里面，因为它是匿名的", key)
 	}
 
@@ -509,7 +538,8 @@ func (u *Unmarshaler) processAnonymousFieldOptional(fieldType reflect.Type, valu
 			return err
 		}
 
-		_, hasValue := getValue(m, fieldKey)
+		// 文档里的键是规范化过的（如配置加载），要用规范化后的键去查，否则值会被悄悄丢掉
+		_, hasValue := getValue(m, u.canonical(fieldKey))
 		if hasValue {
 			if !filled {
 				filled = true
